@@ -7,7 +7,7 @@
     calls on [Context::default()] (panicking calls included: the history goes on);
     [cx_run_op o] is one call.  All statements are for ARBITRARY histories. *)
 From Coq Require Import NArith String List.
-From Patronus Require Import Context ContextOracle ContextProofs ContextOracleProofs.
+From Patronus Require Import Context ContextOracle ContextProofs ContextOracleProofs ContextDenotesProofs.
 Import ListNotations.
 Open Scope N_scope.
 
@@ -102,6 +102,22 @@ Theorem C12_lit_canonical :
     (r1 = r2 <-> (w = w' /\ v = v')).
 Proof. exact lit_value_canonical_lemma. Qed.
 Print Assumptions C12_lit_canonical.
+
+(** every builder call that returns a reference, in any reachable context, returns a
+    reference that DENOTES THE REQUEST in the context after the call: the requested operator,
+    operand references and scalars, the stored width equal to the type of the operand the
+    Rust code reads it from, the requested symbol name (string) and type, the requested
+    literal words; the normalising builders return their argument exactly in the
+    normalising case; composite builders (distinct, xor3, majority, zero_array,
+    lit(array)) denote the whole requested structure.  [cx_denotes] is the executable
+    predicate the driver evaluates on the implementation's observations. *)
+Theorem C12_returned_reference_denotes_request :
+  forall ops o c' out,
+    let c := cx_exec ops cx_default in
+    cx_run_op o c = (c', CxOk out) ->
+    cx_denotes (cx_keys c') (cx_types c') (cx_strings c') o out = true.
+Proof. exact denotes_lemma. Qed.
+Print Assumptions C12_returned_reference_denotes_request.
 
 (** The extracted property oracle (Model/ContextOracle.v), which the driver evaluates on
     the IMPLEMENTATION's observations, is passed by the model on every well-formed history
